@@ -170,8 +170,13 @@ class Ctx:
                 shutil.rmtree(d, True)
                 return r
         try:
-            p = subprocess.run(cmd, cwd=d, env=e, stdout=subprocess.PIPE, stderr=subprocess.STDOUT,
-                               timeout=timeout, text=True, errors="replace")
+            PROGRESS["external"] += 1
+            try:
+                p = subprocess.run(cmd, cwd=d, env=e, stdout=subprocess.PIPE, stderr=subprocess.STDOUT,
+                                   timeout=timeout, text=True, errors="replace")
+            finally:
+                PROGRESS["external"] -= 1
+                PROGRESS["t"] = time.time()
         except subprocess.TimeoutExpired as ex:
             if simulate:   # simulation is stopped by the outer timeout by design
                 out = ex.stdout if isinstance(ex.stdout, str) else (ex.stdout or b"").decode(errors="replace")
@@ -207,6 +212,7 @@ class Ctx:
     def case(self, key, sample=None):
         """count one explored case; key identifies distinct non-trivial cases"""
         self.evaluations += 1
+        PROGRESS["t"] = time.time()
         if HANGS[0] > 2 * MAX_VIOLATIONS and not self.violations:
             # safety net: a hang is never a legitimate outcome, whatever the per-property oracle made of the run
             self.violation("the real code did not return within %ss in %d replays" % (WATCHDOG_S, HANGS[0]), {"hangs": HANGS[0]})
@@ -252,6 +258,7 @@ class Ctx:
         """the real run differs from the model's prediction on this property's projection, but the property itself,
         evaluated on the real run, holds: recorded (evidence + one note), not an alarm"""
         self.divergences.append(what)
+        PROGRESS["t"] = time.time()
 
     def finish(self, level="model_checking", rule="", assumptions=(), extra=None):
         if self.divergences:
@@ -387,6 +394,31 @@ def validate_traces(ctx, area, module, cfg, traces, gen=None, lens=None, shards=
 
 
 HANGS = [0]      # calls into the real code stopped by the watchdog in this process
+PROGRESS = {"t": time.time(), "external": 0}     # last sign of life of the harness; > 0 while TLC / a worker pool is running
+
+
+def stall_guard(prop, limit=None):
+    """Last line of defence against real code that does not return where no watchdog() block covers it (a rig being built,
+    a worker of a pool): a daemon thread that, when the harness shows no progress for `limit` seconds outside TLC runs,
+    reports that as what it is - the code under test hangs - and ends the process with the violation exit code."""
+    import threading
+    limit = limit or float(os.environ.get("HIO_VERIF_STALL_S", "600"))
+
+    def watch():
+        while True:
+            time.sleep(5)
+            if PROGRESS["external"] <= 0 and time.time() - PROGRESS["t"] > limit:
+                path = os.path.join(VERIF, "replays", "%s-stall.json" % prop)
+                try:
+                    with open(path, "w") as fh:
+                        json.dump({"property": prop, "what": "no progress for %ds: the code under test did not return" % limit}, fh)
+                except OSError:
+                    pass
+                print("VIOLATION property=%s replay=%s" % (prop, path))
+                print("  what: the code under test did not return (no progress of the check for %d s outside model checking)" % limit)
+                sys.stdout.flush()
+                os._exit(1)
+    threading.Thread(target=watch, daemon=True).start()
 
 
 class Hang(BaseException):
